@@ -539,7 +539,7 @@ class GeoBox(GeoBoxBase):
             anchor = AnchorEnum.FLOATING
 
         if isinstance(anchor, XY):
-            _snap = anchor
+            _snap = xy_(float(anchor.x), float(anchor.y))
         if anchor == AnchorEnum.EDGE:
             _snap = xy_(0, 0)
         elif anchor == AnchorEnum.CENTER:
@@ -558,6 +558,12 @@ class GeoBox(GeoBoxBase):
             bbox = _norm_bbox(bbox, crs)
         elif bbox.crs is None:
             bbox = _norm_bbox(bbox.bbox, crs)
+
+        # plain python floats from here on: numpy float32 scalars (or 0-d arrays) would
+        # otherwise drag the snapping arithmetic into single precision under NumPy 2
+        # promotion rules and silently change the grid
+        bbox = BoundingBox(*(float(v) for v in bbox.bbox), crs=bbox.crs)
+        tol = float(tol)
 
         if isinstance(shape, (int, float)):
             if bbox.aspect > 1:
@@ -641,7 +647,7 @@ class GeoBox(GeoBoxBase):
             else:
                 assert resolution is not None
                 resolution = res_(resolution)
-                anchor = xy_(ax / abs(resolution.x), ay / abs(resolution.y))
+                anchor = xy_(float(ax) / abs(resolution.x), float(ay) / abs(resolution.y))
 
         if crs is None or isinstance(crs, Unset):
             crs = geopolygon.crs
